@@ -1,4 +1,5 @@
 import RPVerif.Lemmas.Sched
+import RPVerif.Lemmas.SchedRun
 
 /-!
 # C04 — The pilot scheduler neither loses nor starves tasks
@@ -138,5 +139,16 @@ theorem C04_app_slots_witness :
          { incoming := [.sched [{ uid := 2, ranks := 1, cpr := 1, gpr := 0, lfs := 0, mem := 0 }]] }] []).2.2
       = [[.adv 0 "AGENT_EXECUTING_PENDING"], [.adv 1 "AGENT_EXECUTING_PENDING"], [.adv 2 "FAILED"]] := by
   decide
+
+/-! ## whole histories of the scheduling loop -/
+
+/-- **the counter the "can never be scheduled" rule reads is exact after every history**: it is the
+    number of placements the scheduler made and that were not released - so the rule (`C04_never_rule`)
+    fires only when no scheduler-placed task holds anything -/
+theorem C04_history_counter (c : Cfg) (nodes0 : List NodeSt) (its : List Iter) (hw : NodesWF nodes0) (hnn : NonNeg nodes0)
+    (hok : RunOK c { nodes := nodes0 } true its) :
+    (runLoop c { nodes := nodes0 } true its []).1.activeCnt = ((runLoop c { nodes := nodes0 } true its []).1.held.length : Int) := by
+  have hinit : SInv nodes0 ({ nodes := nodes0 } : SchedSt) := ⟨hinv_init nodes0 hw hnn, rfl⟩
+  exact (runLoop_inv c nodes0 its _ true [] hinit hok).2
 
 end RPVerif.C04
